@@ -124,6 +124,102 @@ func (l Lin) String() string {
 	return sb.String()
 }
 
+// leaves collects the leaf terms flowing into v: parameters, free variables,
+// results of calls (the call's own term, and the leaves of its arguments),
+// and the marker "+" when an addition (integer/float + or a method named Add)
+// combines operands.  Phis are resolved along the path.
+func (s *symPath) leaves(v ssa.Value) map[string]bool {
+	out := map[string]bool{}
+	seen := map[ssa.Value]bool{}
+	var walk func(v ssa.Value, d int)
+	walk = func(v ssa.Value, d int) {
+		if v == nil || seen[v] || d > 12 {
+			return
+		}
+		seen[v] = true
+		switch x := v.(type) {
+		case *ssa.Parameter:
+			out[x.Name()] = true
+		case *ssa.FreeVar:
+			out[x.Name()] = true
+		case *ssa.Const, *ssa.Function, *ssa.Builtin, *ssa.Global:
+		case *ssa.Phi:
+			if e := s.phiEdge(x); e != nil {
+				walk(e, d+1)
+			} else {
+				for _, e := range x.Edges {
+					walk(e, d+1)
+				}
+			}
+		case *ssa.BinOp:
+			if x.Op == token.ADD {
+				out["+"] = true
+			}
+			walk(x.X, d+1)
+			walk(x.Y, d+1)
+		case *ssa.Extract:
+			out[s.term(x)] = true
+			walk(x.Tuple, d+1)
+		case *ssa.Call:
+			out[s.term(x)] = true
+			cc := x.Common()
+			if c := CommonCallee(cc); c != nil && c.Name() == "Add" {
+				out["+"] = true
+			}
+			if cc.IsInvoke() {
+				walk(cc.Value, d+1)
+			}
+			for _, a := range cc.Args {
+				walk(a, d+1)
+			}
+		case *ssa.Alloc:
+			if refs := x.Referrers(); refs != nil {
+				for _, r := range *refs {
+					switch u := r.(type) {
+					case *ssa.Call:
+						// a method called on the cell (x.Add(a, b), x.SetString(s)) writes it
+						cc := u.Common()
+						if !cc.IsInvoke() && len(cc.Args) > 0 && cc.Args[0] == ssa.Value(x) && cc.Signature().Recv() != nil {
+							if c := CommonCallee(cc); c != nil && c.Name() == "Add" {
+								out["+"] = true
+							}
+							for _, a := range cc.Args[1:] {
+								walk(a, d+1)
+							}
+						}
+					case *ssa.Store:
+						if u.Addr == x {
+							walk(u.Val, d+1)
+						}
+					case *ssa.IndexAddr:
+						for _, rr := range *u.Referrers() {
+							if st, ok := rr.(*ssa.Store); ok && st.Addr == u {
+								walk(st.Val, d+1)
+							}
+						}
+					case *ssa.FieldAddr:
+						for _, rr := range *u.Referrers() {
+							if st, ok := rr.(*ssa.Store); ok && st.Addr == u {
+								walk(st.Val, d+1)
+							}
+						}
+					}
+				}
+			}
+		default:
+			if in, ok := v.(ssa.Instruction); ok {
+				for _, op := range in.Operands(nil) {
+					if *op != nil {
+						walk(*op, d+1)
+					}
+				}
+			}
+		}
+	}
+	walk(v, 0)
+	return out
+}
+
 // Cond is one branch condition in normal form: X op Y (op in == != < <= > >=),
 // or a boolean term (Op "true") — with Neg telling whether the false edge was taken.
 type Cond struct {
@@ -132,6 +228,8 @@ type Cond struct {
 	LX   *Lin
 	LY   *Lin
 	Neg  bool
+	// three-way compare: X is Cmp(CmpA, CmpB) and Y an integer constant
+	CmpA, CmpB string
 }
 
 func (c Cond) String() string {
@@ -165,21 +263,23 @@ func (m MapEffect) String() string {
 type CallEffect struct {
 	Callee *types.Func
 	Args   []string
+	Leaves []map[string]bool // per argument: leaf terms (parameters, call results, adds) flowing into it, phis resolved along the path
 	Instr  ssa.Instruction
 }
 
 // PathSummary is the summary of one acyclic path.
 type PathSummary struct {
-	Conds   []Cond
-	Ints    map[string]Lin // tracked int field -> net change
-	Maps    []MapEffect
-	Calls   []CallEffect
-	Assigns map[string]string // tracked plain field -> last assigned term
-	End     string            // "return" | "panic" | "continue" (back to loop header) | "exit" (left the region)
-	EndIn   ssa.Instruction
-	Blocks  []*ssa.BasicBlock
-	Results []string // terms of returned values (End == return)
-	BackPhi map[string]string // End == continue: value fed to each header phi (keyed by source name)
+	Conds        []Cond
+	Ints         map[string]Lin // tracked int field -> net change
+	Maps         []MapEffect
+	Calls        []CallEffect
+	Assigns      map[string]string // tracked plain field -> last assigned term
+	End          string            // "return" | "panic" | "continue" (back to loop header) | "exit" (left the region)
+	EndIn        ssa.Instruction
+	Blocks       []*ssa.BasicBlock
+	Results      []string          // terms of returned values (End == return)
+	BackPhi      map[string]string // End == continue: value fed to each header phi (keyed by source name)
+	ResultLeaves []map[string]bool
 }
 
 // SymConfig configures the summarizer.
@@ -248,6 +348,7 @@ func Summarize(cfg *SymConfig) []PathSummary {
 		case *ssa.Return:
 			for _, r := range t.Results {
 				st.sum.Results = append(st.sum.Results, st.term(r))
+				st.sum.ResultLeaves = append(st.sum.ResultLeaves, st.leaves(r))
 			}
 			finish("return")
 			return
@@ -377,7 +478,7 @@ func (s *symPath) step(in ssa.Instruction) {
 				if !has {
 					cur = LinConst(0)
 				}
-				s.env[x] = LinAtom("$" + name).Add(cur, 1)
+				s.env[x] = LinAtom("$"+name).Add(cur, 1)
 			}
 		}
 	case *ssa.Store:
@@ -418,8 +519,12 @@ func (s *symPath) step(in ssa.Instruction) {
 			if cc.IsInvoke() {
 				ce.Args = append(ce.Args, s.term(cc.Value))
 			}
+			if cc.IsInvoke() {
+				ce.Leaves = append(ce.Leaves, s.leaves(cc.Value))
+			}
 			for _, a := range cc.Args {
 				ce.Args = append(ce.Args, s.term(a))
+				ce.Leaves = append(ce.Leaves, s.leaves(a))
 			}
 			s.sum.Calls = append(s.sum.Calls, ce)
 		}
@@ -645,6 +750,18 @@ func (s *symPath) addCond(c ssa.Value, neg bool) {
 			} else {
 				cd.X, cd.Y = s.term(bo.X), s.term(bo.Y)
 			}
+			if call, ok := bo.X.(*ssa.Call); ok {
+				if cl := CommonCallee(call.Common()); cl != nil && (cl.Name() == "Cmp" || cl.Name() == "Compare") {
+					var as []ssa.Value
+					if call.Call.IsInvoke() {
+						as = append(as, call.Call.Value)
+					}
+					as = append(as, call.Call.Args...)
+					if len(as) == 2 {
+						cd.CmpA, cd.CmpB = s.term(as[0]), s.term(as[1])
+					}
+				}
+			}
 			s.sum.Conds = append(s.sum.Conds, cd)
 			return
 		}
@@ -779,6 +896,78 @@ func (p *PathSummary) OrderingOf(a, b string) int {
 			s = ordSet(c.Op, c.Neg)
 		case c.X == b && c.Y == a:
 			s = ordSet(c.Op, c.Neg)
+			sw := s & ordEQ
+			if s&ordLT != 0 {
+				sw |= ordGT
+			}
+			if s&ordGT != 0 {
+				sw |= ordLT
+			}
+			s = sw
+		default:
+			continue
+		}
+		set &= s
+	}
+	return set
+}
+
+// Relation interprets the condition as an ordering constraint between two
+// terms: a direct comparison `a op b`, or a three-way compare `Cmp(a,b) op c`.
+func (c Cond) Relation() (a, b string, set int, ok bool) {
+	if c.CmpA != "" {
+		var k int64
+		if _, err := fmt.Sscanf(c.Y, "%d", &k); err != nil {
+			return "", "", 0, false
+		}
+		rset := 0
+		for _, r := range []int64{-1, 0, 1} {
+			hold := false
+			switch c.Op {
+			case "==":
+				hold = r == k
+			case "!=":
+				hold = r != k
+			case "<":
+				hold = r < k
+			case "<=":
+				hold = r <= k
+			case ">":
+				hold = r > k
+			case ">=":
+				hold = r >= k
+			}
+			if hold != c.Neg {
+				switch r {
+				case -1:
+					rset |= ordLT
+				case 0:
+					rset |= ordEQ
+				case 1:
+					rset |= ordGT
+				}
+			}
+		}
+		return c.CmpA, c.CmpB, rset, true
+	}
+	switch c.Op {
+	case "==", "!=", "<", "<=", ">", ">=":
+		return c.X, c.Y, ordSet(c.Op, c.Neg), true
+	}
+	return "", "", 0, false
+}
+
+// RelationOf intersects the constraints the path puts on the pair (a, b).
+func (p *PathSummary) RelationOf(a, b string) int {
+	set := OrdAny
+	for _, c := range p.Conds {
+		x, y, s, ok := c.Relation()
+		if !ok {
+			continue
+		}
+		switch {
+		case x == a && y == b:
+		case x == b && y == a:
 			sw := s & ordEQ
 			if s&ordLT != 0 {
 				sw |= ordGT
